@@ -165,11 +165,51 @@ Proof.
   apply (WFc_fs bytes kid fs fs'). apply c_set_part_sem. exact G3.
 Qed.
 
+(* caching the wrapper of an XML part changes nothing *)
+Lemma cache_wf : forall fs n (d : document), WFd fs d -> is_xml n = true -> WFd fs (mkD (cont _ _ d) (xp_cache xml n (xps _ _ d))).
+Proof.
+  intros fs n d W Xn. constructor; cbn [cont xps].
+  - exact (wfd_c _ _ _ _ _ W).
+  - intros m Hm. apply keys_xp_cache in Hm as [Hm| ->]; [apply (wfd_x _ _ _ _ _ W); exact Hm|exact Xn].
+  - intros m y L. rewrite lookup_xp_cache in L. destruct (lookup m (xps _ _ d)) as [v|] eqn:L0.
+    + inversion L; subst. apply (wfd_live _ _ _ _ _ W m y L0).
+    + destruct (m =? n); discriminate.
+Qed.
+
+Lemma set_tree_opt_wf : forall fs n ox (d : document), WFd fs d -> is_xml n = true ->
+  WFd fs (fst (d_set_tree_opt xml bytes kid par FIXED fs n ox d)).
+Proof.
+  intros fs n ox d W Xn. unfold d_set_tree_opt. destruct ox as [x'|]; [|exact W].
+  destruct (tree_then_set_wf xml bytes kid par fs n (fun _ => x') d W Xn) as [W1 W2].
+  destruct (d_tree fs n d) as [d' [x|]]; cbn [fst snd] in *; [apply (W2 x); reflexivity|exact W1].
+Qed.
+
+Lemma imports_wf : forall fs (imgs : list (name * bytes * mtype)) (acc : document * bool), WFd fs (fst acc) ->
+  WFd fs (fst (fold_left (fun (acc : document * bool) e =>
+               let '(d', ok) := d_import xml bytes kid par entries with_entries FIXED fs (fst (fst e)) (snd (fst e)) (snd e) (fst acc) in (d', snd acc && ok)) imgs acc)).
+Proof.
+  intros fs. induction imgs as [|e imgs IH]; intros acc W; cbn [fold_left]; [exact W|]. apply IH.
+  pose proof (d_import_wf xml bytes kid par entries with_entries fs (fst (fst e)) (snd (fst e)) (snd e) (fst acc) W) as W1.
+  destruct (d_import xml bytes kid par entries with_entries FIXED fs (fst (fst e)) (snd (fst e)) (snd e) (fst acc)) as [d' ok]. exact W1.
+Qed.
+
+Lemma d_merge_wf : forall fs sc sx imgs (d : document), WFd fs d ->
+  WFd fs (fst (d_merge xml bytes kid par entries with_entries FIXED fs sc sx imgs d)).
+Proof.
+  intros fs sc sx imgs d W. unfold d_merge.
+  pose proof (cache_wf fs MANIFEST d W is_xml_MANIFEST) as W0.
+  pose proof (set_tree_opt_wf fs CONTENT sc _ W0 eq_refl) as W1.
+  destruct (d_set_tree_opt xml bytes kid par FIXED fs CONTENT sc _) as [d1 ok1]. cbn [fst] in W1.
+  pose proof (set_tree_opt_wf fs STYLES sx _ W1 eq_refl) as W2.
+  destruct (d_set_tree_opt xml bytes kid par FIXED fs STYLES sx d1) as [d2 ok2]. cbn [fst] in W2.
+  apply (imports_wf fs imgs (d2, ok1 && ok2) W2).
+Qed.
+
 (* every operation preserves the invariant *)
 Theorem step_inv : forall s o, SInv s -> SInv (fst (step s o)).
 Proof.
   intros [fs d] o [F W]. cbn [fst snd] in *. unfold Package.step.
-  destruct o as [p b|p m'|n|n|n x'|n b|n|n b m|n b m|t pk pty|].
+  destruct o as [p b|p m'|n|n|n x'|n b|n|n b m|n b m|t pk pty| |sc sx imgs].
   - destruct (c_open bytes kid fs p b) as [c|] eqn:O; cbn [fst snd]; [|split; assumption].
     split; [exact F|]. apply (open_doc_wf xml bytes kid fs p b c O).
   - destruct (c_new xml bytes kid ser par entries with_entries mime_bytes FIXED fs p m') as [c|] eqn:O; cbn [fst snd]; [|split; assumption].
@@ -201,6 +241,8 @@ Proof.
     destruct (d_save fs d t pk pty) as [[fs' d'] ok]. cbn [fst snd] in *. exact I.
   - cbn [fst snd]. split; [exact F|].
     destruct (d_clone_sem xml bytes kid ser par par_ser fs d F W) as [_ [_ [_ [_ [_ [Wc _]]]]]]. apply Wc.
+  - pose proof (d_merge_wf fs sc sx imgs d W) as W1.
+    destruct (d_merge xml bytes kid par entries with_entries FIXED fs sc sx imgs d) as [d' ok]. cbn [fst snd] in *. split; assumption.
 Qed.
 
 (* C03_full: along any history *)
